@@ -36,6 +36,8 @@ PROPS['C06'] = {
     ],
     'queries': [
         dict(name='mutex_T2_S2', kernel='C06_mutex.cpp', prefix='mx_', mode='res', lower_defs=['-DNTHREADS=2'], shim='shim_sync', inline=20000, R=3, BMAX=60, unwind=3, covers=[0], timeout=1500),
+        dict(name='spinlock_T2_S2', kernel='C06_spinlock.cpp', prefix='spl_', mode='res', lower_defs=['-DNTHREADS=2', '-DNSEC=2'], inline=20000, R=3, BMAX=60, unwind=3, covers=[0], timeout=2400),
+        dict(name='spinlock_T3_S1', kernel='C06_spinlock.cpp', prefix='spl_', mode='res', lower_defs=['-DNTHREADS=3', '-DNSEC=1'], inline=20000, R=4, BMAX=60, unwind=3, covers=[0], timeout=7000, tiers=('thorough',)),
         dict(name='mutex_misuse', kernel='C06_mutex.cpp', prefix='misuse_', mode='seq', lower_defs=['-DNTHREADS=2'], shim='shim_sync', inline=20000, unwind=6),
         dict(name='mutex_T3_S1', kernel='C06_mutex.cpp', prefix='mx_', mode='res', lower_defs=['-DNTHREADS=3', '-DNSEC=1'], shim='shim_sync', inline=20000, R=3, BMAX=60, unwind=3, tiers=('thorough',), timeout=6000),
     ],
@@ -54,8 +56,9 @@ PROPS['C06']['assumptions'] = SYNC_ASSUMPTIONS
 PROPS['C08'] = {
     'assumptions': SYNC_ASSUMPTIONS + ['counting_semaphore<>: initial count in [0,2], release(n) with n in [1,2], 2 operations per thread.'],
     'queries': [
+        dict(name='sem_release2_two_waiters', kernel='C08_semaphore.cpp', prefix='csem3_', mode='res', lower_defs=['-DNTHREADS=2'], shim='shim_sync', inline=20000, R=3, BMAX=60, unwind=3, covers=[0], timeout=2400),
         dict(name='sem_T2_K2', kernel='C08_semaphore.cpp', prefix='csem_', mode='res', lower_defs=['-DNTHREADS=2'], shim='shim_sync', inline=20000, R=3, BMAX=60, unwind=3,
-             unwindset=['csem_final__step.0:10'], covers=[0], timeout=2400),
+             unwindset=['csem_final__step.0:14'], covers=[0], timeout=2400),
     ],
 }
 
@@ -65,7 +68,9 @@ PROPS['C14'] = {
         'Concurrent: two request_stop callers and one thread constructing/destroying a stop_callback whose body yields; thread identities (pika task / plain OS thread) symbolic.',
     ],
     'queries': [
-        dict(name='stop_hist_k5', kernel='C14_stop_token.cpp', prefix='hist_', mode='seq', shim='shim_sync', inline=20000, unwind=6, lower_defs=['-DHIST_K=5'], covers=[0], timeout=1800),
+        dict(name='stop_hist_k4', kernel='C14_stop_token.cpp', prefix='hist_', mode='seq', shim='shim_sync', inline=20000, unwind=6, lower_defs=['-DHIST_K=4'], covers=[0], timeout=2400),
+        dict(name='stop_two_callbacks', kernel='C14_stop_token.cpp', prefix='cc2_', mode='res', shim='shim_sync', inline=20000, R=3, BMAX=60, unwind=3, covers=[0], timeout=2400),
+        dict(name='stop_race_kept_T3', kernel='C14_stop_token.cpp', prefix='cck_', mode='res', shim='shim_sync', inline=20000, R=3, BMAX=60, unwind=3, covers=[0], timeout=2400),
         dict(name='stop_race_T3', kernel='C14_stop_token.cpp', prefix='cc_', mode='res', shim='shim_sync', inline=20000, R=3, BMAX=60, unwind=3, covers=[0], timeout=2400),
     ],
 }
@@ -85,5 +90,41 @@ PROPS['C11'] = {
     ] + [
         dict(name='tile_u32_W%d' % w, kernel='C11_bulk.cpp', prefix='tile_', mode='seq', inline=20000, unwind=34, lower_defs=['-DSHAPE=std::uint32_t'], params=[w], covers=[0],
              partial_loops_assume=True, timeout=1200, tiers=('quick', 'thorough') if w in (1, 2, 3) else ('thorough',)) for w in (1, 2, 3, 4, 5, 7, 8, 16)
+    ],
+}
+
+PROPS['C07'] = {
+    'assumptions': SYNC_ASSUMPTIONS + ['User lock: std::unique_lock over the contract spinlock (quick) and over the real pika::mutex (thorough); waiters use the predicate-loop idiom for plain waits.'],
+    'queries': [
+        dict(name='cv_notify_W1', kernel='C07_condvar.cpp', prefix='cvn_', mode='res', lower_defs=['-DNWAITERS=1'], shim='shim_sync', inline=20000, R=3, BMAX=60, unwind=3, covers=[0], timeout=2400),
+        dict(name='cv_timed', kernel='C07_condvar.cpp', prefix='cvt_', mode='res', lower_defs=['-DNWAITERS=1'], shim='shim_sync', inline=20000, R=3, BMAX=60, unwind=3, covers=[0], timeout=2400),
+        dict(name='cv_stop_token', kernel='C07_condvar.cpp', prefix='cvs_', mode='res', lower_defs=['-DNWAITERS=1'], shim='shim_sync', inline=20000, R=3, BMAX=60, unwind=3, covers=[0], timeout=2400),
+        dict(name='cv_notify_W2', kernel='C07_condvar.cpp', prefix='cvn_', mode='res', lower_defs=['-DNWAITERS=2'], shim='shim_sync', inline=20000, R=3, BMAX=60, unwind=4, covers=[0], timeout=6000, tiers=('thorough',)),
+        dict(name='cv_notify_W1_pikamutex', kernel='C07_condvar.cpp', prefix='cvn_', mode='res', lower_defs=['-DNWAITERS=1', '-DUSE_PIKA_MUTEX'], shim='shim_sync', inline=20000, R=3, BMAX=60, unwind=3, covers=[0], timeout=6000, tiers=('thorough',)),
+    ],
+}
+
+def _c09(name, prefix, npart=2, tiers=('quick', 'thorough'), R=3, unwind=3, timeout=2400):
+    return dict(name=name, kernel='C09_latch_barrier.cpp', prefix=prefix, mode='res', lower_defs=['-DNPART=%d' % npart], shim='shim_sync', inline=20000, R=R, BMAX=60,
+                unwind=unwind, covers=[0], timeout=timeout, tiers=tiers)
+
+PROPS['C09'] = {
+    'assumptions': SYNC_ASSUMPTIONS + ['latch/barrier with 2 (quick) or 3 (thorough) participants; barrier: 2 phases, starting ticket of the tournament tree (hash of the thread id) arbitrary; '
+                                       'busy_wait_timeout path of barrier::wait and arrive_and_drop are outside the quick claim.'],
+    'queries': [
+        _c09('latch_P2', 'lat_'), _c09('barrier_P2', 'bar_', unwind=4), _c09('event_T3', 'evt_'), _c09('call_once_T2', 'onc_'),
+        _c09('latch_P3', 'lat_', 3, ('thorough',), timeout=7000), _c09('barrier_P3', 'bar_', 3, ('thorough',), R=4, unwind=5, timeout=10000),
+    ],
+}
+
+PROPS['C18'] = {
+    'assumptions': [
+        'function<int(int)> and unique_function<int(int)> over two payload classes (inline buffer / heap); histories of HIST_K operations over 3 wrapper slots; payload ids in [1,3].',
+        'any_sender / unique_any_sender storage and forwarding are covered by the any_sender queries (C18 any_*), default configuration (SBO for any_sender disabled upstream).',
+    ],
+    'queries': [
+        dict(name='function_hist_k4', kernel='C18_function.cpp', prefix='fn_', mode='seq', inline=20000, unwind=26, lower_defs=['-DHIST_K=4'], covers=[0], timeout=2400),
+        dict(name='unique_function_hist_k4', kernel='C18_function.cpp', prefix='fn_', mode='seq', inline=20000, unwind=26, lower_defs=['-DHIST_K=4', '-DUNIQUE'], covers=[0], timeout=2400),
+        dict(name='function_hist_k6', kernel='C18_function.cpp', prefix='fn_', mode='seq', inline=20000, unwind=26, lower_defs=['-DHIST_K=6'], covers=[0], timeout=10000, tiers=('thorough',)),
     ],
 }
